@@ -95,8 +95,8 @@ DevRows == kind = "code" =>
 Empty == <<>>
 Opt(cond, rec) == IF cond THEN rec ELSE Empty
 
-CodeExp(id, c, dv) ==
-  LET T == TT(id, dv) st == T.style
+CodeExpT(T, id, c, dv) ==
+  LET st == T.style
       macro == st \in {"prefix", "withdec", "decimal"} IN
   [int |-> c, alg |-> TRUE]
   @@ Opt(st # "newcode", [display |-> Display(T, c)])
@@ -117,6 +117,13 @@ CodeExp(id, c, dv) ==
   @@ Opt(id = "Rcode", [opt |-> c, tsig |-> c])
   @@ Opt(id = "OptRcode", [tsig |-> c, parts |-> <<c % 16, c \div 16, c >= 16>>])
 
+CodeExp(id, c, dv) == CodeExpT(TT(id, dv), id, c, dv)
+\* an optional registry row the library has not adopted: the observation must be
+\* that of the type without or with that row (as specified or under one deviation)
+CodeOpt(id, c) == {CodeExpT(T, id, c, {}) : T \in {TI(id), TA(id)}}
+CodeOptDv(id, c, d) == {CodeExpT(T, id, c, {d}) : T \in {TI(id), TA(id)}} \ CodeOpt(id, c)
+OptDevs(id, c) == {d \in Dev : CodeOptDv(id, c, d) # {}}
+
 TextExp(id, t, dv) ==
   LET T == TT(id, dv) IN
   [fromstr |-> Res(FromStr(T, t, dv))]
@@ -131,7 +138,15 @@ EmitCase(inp, F(_)) ==
 
 Emit ==
   Emitting =>
-    CASE kind = "code" -> LET F(dv) == CodeExp(ty, code, dv)
+    CASE kind = "code" /\ Undecided(ty, code) ->
+                LET ds == OptDevs(ty, code)
+                    base == [in |-> [k |-> "code", ty |-> ty, c |-> code, opt |-> CodeOpt(ty, code),
+                                     optdev |-> PairsToFun({<<d, CodeOptDv(ty, code, d)>> : d \in ds})],
+                             exp |-> "conforms"]
+                IN PrintT("CASE " \o ToJson(IF ds = {} THEN base
+                            ELSE base @@ [dev |-> PairsToFun({<<d, [conforms_dev |-> d]>> : d \in ds})]))
+      [] kind = "code" /\ ~Undecided(ty, code) ->
+                          LET F(dv) == CodeExp(ty, code, dv)
                           IN EmitCase([k |-> "code", ty |-> ty, c |-> code], F)
       [] kind = "text" -> LET F(dv) == TextExp(ty, text, dv)
                           IN EmitCase([k |-> "text", ty |-> ty, t |-> text], F)
